@@ -826,9 +826,14 @@ check_siblings(const struct lyd_node *first, const struct lyd_node *parent, int 
     if (first->prev != last) {
         return "first->prev != last";
     }
+    /* opaque nodes may be placed anywhere (the API allows lyd_insert_before/after of an opaque node next to any sibling),
+     * so only data nodes separate the instances of a schema node */
     for (n = first; n; n = n->next) {
-        if (n->schema && n->next && (n->next->schema != n->schema)) {
-            for (const struct lyd_node *m = n->next->next; m; m = m->next) {
+        const struct lyd_node *nx;
+
+        for (nx = n->next; nx && !nx->schema; nx = nx->next) {}
+        if (n->schema && nx && (nx->schema != n->schema)) {
+            for (const struct lyd_node *m = nx->next; m; m = m->next) {
                 if (m->schema == n->schema) {
                     return "instances of one schema node are not contiguous";
                 }
@@ -2153,6 +2158,11 @@ main(void)
 
                 sb_reset(&after[k]);
                 if (why) {
+                    if (debug && strstr(why, "contiguous")) {
+                        dump_node(&after[k], T[k], 0, 0, NULL, NULL);
+                        fprintf(stderr, "SLOT %d after command %d (%s):\n before %s\n after  %s\n", k, i - 1, why,
+                                before[k].s ? before[k].s : "", after[k].s ? after[k].s : "");
+                    }
                     sb_fmt(&o, "LINK!%d(%s)", k, why);
                     /* the forest cannot be walked or freed safely any more */
                     T[k] = NULL;
